@@ -63,7 +63,7 @@ fn soup(t: &mut Tape) -> String {
 }
 
 fn valid_tokens(t: &mut Tape, ctx: &Ctx) -> Vec<Tok> {
-    if t.chance(1, 3) {
+    let mut tokens = if t.chance(1, 3) {
         gen_tabledef(t, "t").tokens()
     } else {
         let s = gen_select(t, ctx);
@@ -72,7 +72,36 @@ fn valid_tokens(t: &mut Tape, ctx: &Ctx) -> Vec<Tok> {
         } else {
             s.tokens(&Renderer::full())
         }
+    };
+    // one case in six: an identifier with letters whose lower / upper case form has another length (in characters or bytes)
+    if t.chance(1, 6) {
+        let name = *t.pick(&["İsim", "straße", "ǆx", "ﬁeld", "K\u{212a}", "ŉ_1", "İİİ"]);
+        let victim = tokens.iter().find(|tk| tk.kind == TokKind::Ident).map(|tk| tk.text.clone());
+        if let Some(victim) = victim {
+            for tk in tokens.iter_mut() {
+                if tk.kind == TokKind::Ident && tk.text == victim {
+                    tk.text = name.to_string();
+                }
+            }
+        }
     }
+    tokens
+}
+
+/// A definition whose patterns are each small enough but heavy together (whatever is built over all of them at once -
+/// a set, a combined automaton - has its own size limit)
+fn heavy_patterns(t: &mut Tape) -> String {
+    let n = 2 + t.draw(5);
+    let class = *t.pick(&["\\\\w", "\\\\w", "[\\\\p{L}\\\\d_]", "\\\\S"]);
+    let width = *t.pick(&[16usize, 48, 64, 100]);
+    let mut parts = Vec::new();
+    for i in 0..n {
+        parts.push(format!("p{} = '({}{{{}}})'", i, class, width));
+    }
+    for i in 0..n {
+        parts.push(format!("p{}[1] => c{} TEXT", i, i));
+    }
+    format!("CREATE TABLE t({});", parts.join(", "))
 }
 
 fn nested(t: &mut Tape) -> String {
@@ -340,6 +369,11 @@ impl Property for C14 {
             case.text = if t.chance(1, 2) { format!("SELECT x FROM t WHERE {}", chain) } else { format!("SELECT {} FROM t", chain) };
             return case;
         }
+        if t.chance(1, 2000) {
+            case.kind = "heavy-patterns".into();
+            case.text = heavy_patterns(t);
+            return case;
+        }
         match t.weighted(&[2, 3, 4, 2, 1, 1, 1]) {
             0 => {
                 case.kind = "unicode".into();
@@ -414,6 +448,7 @@ impl Property for C14 {
             "prefixes" | "token-prefix" => obs.label("gen-prefixes"),
             "nesting" => obs.label("gen-nesting"),
             "invalid-definition" => obs.label("gen-invalid-definition"),
+            "heavy-patterns" => obs.label("gen-heavy-patterns"),
             _ => {}
         }
         if case.kind == "long-chain" {
